@@ -11,8 +11,11 @@ Every theorem quantifies over *all* reachable states: any pool size `n` (any num
 modes (`a = false`: operations performed by plain code, `a = true`: by a coroutine running under `coro_queue`),
 and *every* operation list — so any number of handles, across the inline→heap transition and every doubling.
 
-Explicit preconditions (totalisation of the model, see the `Res.bad` branches of `step`): a suspend point is not
-merged into itself; the awaiting coroutine's own handle is neither in the awaited suspend point nor already queued.
+Explicit preconditions: operations on a slot that holds no object (or constructing into an occupied slot, or
+`typed = std::move(untyped)`, which does not compile) are refused (`Res.bad`, no effect); `c06_await` assumes that the
+awaiting coroutine's own handle is neither in the awaited suspend point nor already queued.  Merging a suspend point
+into itself is a no-op since the `fix:` commit (`c06_self_merge_noop`; the pinned code lost every handle:
+`c06_asis_self_assign_loses_handles`).
 -/
 namespace Cocls.SP
 
